@@ -45,6 +45,8 @@ def features(deck):
         f.add('filler_trcl')
     if any(c.get('negu') for c in deck['cells']):
         f.add('negative_u')
+    if any(c.get('kw_front') or c.get('kw_back') for c in deck['cells']):
+        f.add('irrelevant_kw')
     return sorted(f)
 
 
@@ -64,6 +66,8 @@ def run(chk, decks, clauses, seed, optsets, npts=110, decorate=None, lo=-11, hi=
             d = adeck.renumber(d, *adeck.RENUMBERINGS[1 + (i // 3) % 3])
         if i % 4 == 2:
             d['plusspell'] = True        # '+3' is a valid MCNP number
+        if i % 5 == 1:
+            adeck.irrelevant_keywords(d, rng)      # VOL=, NONU=, TMP=, UNC:N= ... on the cell cards
         if i % 5 == 3:
             for c in d['cells']:         # U=-n: same universe, "not truncated by the container" hint
                 if c['u'] and not c.get('like'):
